@@ -153,13 +153,27 @@ func enforcedFromRoutesFile(path string) (map[string]string, error) {
 
 // c04Perturb plants an undeclared scheme at one of the three levels.
 func c04Perturb(p *synth.Project, r interface{ Intn(int) int }) string {
+	// the undeclared name is a look-alike of a declared one three times out of four (other letter
+	// case, a prefix, an extension): only exact names are declared
+	ghost := "ghostScheme"
+	if len(p.Config.Schemes) > 0 {
+		d := p.Config.Schemes[r.Intn(len(p.Config.Schemes))].Name
+		cands := []string{"ghostScheme", strings.ToUpper(d), strings.ToUpper(d[:1]) + d[1:], strings.ToLower(d), d[:len(d)-1], d + "2"}
+		declared := map[string]bool{}
+		for _, sc := range p.Config.Schemes {
+			declared[sc.Name] = true
+		}
+		if g := cands[r.Intn(len(cands))]; !declared[g] && g != "" {
+			ghost = g
+		}
+	}
 	switch r.Intn(4) {
 	case 3:
 		for ci := range p.Controllers {
 			for mi := range p.Controllers[ci].Methods {
 				m := &p.Controllers[ci].Methods[mi]
 				if m.IsEndpoint() && m.Hidden {
-					m.Security = append(m.Security, synth.Security{Scheme: "ghostScheme", Scopes: []string{"a"}})
+					m.Security = append(m.Security, synth.Security{Scheme: ghost, Scopes: []string{"a"}})
 					return "undeclared-at-hidden-method"
 				}
 			}
@@ -169,7 +183,7 @@ func c04Perturb(p *synth.Project, r interface{ Intn(int) int }) string {
 			for mi := range p.Controllers[ci].Methods {
 				m := &p.Controllers[ci].Methods[mi]
 				if m.IsEndpoint() && !m.Hidden {
-					m.Security = append(m.Security, synth.Security{Scheme: "ghostScheme", Scopes: []string{"a"}})
+					m.Security = append(m.Security, synth.Security{Scheme: ghost, Scopes: []string{"a"}})
 					return "undeclared-at-method"
 				}
 			}
@@ -184,7 +198,7 @@ func c04Perturb(p *synth.Project, r interface{ Intn(int) int }) string {
 				}
 			}
 			if hasInheriting {
-				c.Security = append(c.Security, synth.Security{Scheme: "ghostScheme", Scopes: []string{}})
+				c.Security = append(c.Security, synth.Security{Scheme: ghost, Scopes: []string{}})
 				return "undeclared-at-controller"
 			}
 		}
@@ -193,13 +207,66 @@ func c04Perturb(p *synth.Project, r interface{ Intn(int) int }) string {
 			c := &p.Controllers[ci]
 			for _, m := range c.Methods {
 				if m.IsEndpoint() && !m.Hidden && len(m.Security) == 0 && len(c.Security) == 0 {
-					p.Config.DefaultSecurity = &synth.Security{Scheme: "ghostDefault", Scopes: []string{}}
+					p.Config.DefaultSecurity = &synth.Security{Scheme: ghost, Scopes: []string{}}
 					return "undeclared-default"
 				}
 			}
 		}
 	}
 	return ""
+}
+
+// c04EnforcePlant turns the enforce flag on, pushes all security down to method level and then leaves
+// exactly one route without any (a hidden one, a documented one) or none: the only unsecured route
+// decides whether the project may be accepted.
+func c04EnforcePlant(p *synth.Project, r interface{ Intn(int) int }) string {
+	if len(p.Config.Schemes) == 0 {
+		return "enforce-plant-not-applicable"
+	}
+	p.Config.Enforce = true
+	p.Config.DefaultSecurity = nil
+	type site struct{ ci, mi int }
+	var hidden, shown []site
+	for ci := range p.Controllers {
+		c := &p.Controllers[ci]
+		for mi := range c.Methods {
+			m := &c.Methods[mi]
+			if !m.IsEndpoint() {
+				continue
+			}
+			if len(m.Security) == 0 {
+				if len(c.Security) > 0 {
+					m.Security = append([]synth.Security{}, c.Security...)
+				} else {
+					m.Security = []synth.Security{{Scheme: p.Config.Schemes[r.Intn(len(p.Config.Schemes))].Name, Scopes: []string{"read"}}}
+				}
+			}
+			if m.Hidden {
+				hidden = append(hidden, site{ci, mi})
+			} else {
+				shown = append(shown, site{ci, mi})
+			}
+		}
+		c.Security = nil
+	}
+	strip := func(s site) { p.Controllers[s.ci].Methods[s.mi].Security = nil }
+	switch k := r.Intn(5); {
+	case k < 2 && len(hidden) > 0:
+		strip(hidden[r.Intn(len(hidden))])
+		p.SetFeature("enforce-only-hidden-route-unsecured")
+		return "enforce: only a hidden route is unsecured"
+	case k < 2 && len(shown) > 0:
+		// no hidden route: hide one and strip it
+		s := shown[r.Intn(len(shown))]
+		p.Controllers[s.ci].Methods[s.mi].Hidden = true
+		strip(s)
+		p.SetFeature("enforce-only-hidden-route-unsecured")
+		return "enforce: only a hidden route is unsecured"
+	case k < 4 && len(shown) > 0:
+		strip(shown[r.Intn(len(shown))])
+		return "enforce: only one documented route is unsecured"
+	}
+	return "enforce: every route secured at method level"
 }
 
 // undeclaredUse reports where the project names a scheme that is not configured ("" if nowhere).
@@ -269,9 +336,13 @@ func c04(c *orch.Ctx) (*report.Result, error) {
 					p.Config.Enforce = false
 				}
 			}
+			if i%4 == 1 {
+				k := c04EnforcePlant(p, rng.New(cx.Seed, "C04-enforce", fmt.Sprint(i)))
+				planted[k]++
+			}
 			return p
 		},
-		rule:   "projects drawn from the 'security' profile: all presence combinations of method-level / controller-level / configured default security, 1-3 alternatives each, 0-3 scopes, repeated schemes, hidden routes, enforceSecurityOnAllRoutes on in ~40%; every 4th project names an undeclared scheme at method, controller or default level. Per route a three-way comparison: effective alternatives from the descriptor (DESIGN A.2) vs paths.*.*.security in the 3.0.0 and 3.1.0 documents vs the SecurityCheckList literal parsed (go/parser) from the generated gin routes file; components.securitySchemes vs the configuration; exit status and written files vs the enforce flag and the undeclared-scheme plants. distinct = distinct (controller-level, method-level, default) security shape triples per route",
+		rule:   "every 4th project is normalised to enforceSecurityOnAllRoutes=true with security only at method level and then exactly one route (hidden or not) is stripped of it, or none; projects drawn from the 'security' profile: all presence combinations of method-level / controller-level / configured default security, 1-3 alternatives each, 0-3 scopes, repeated schemes, hidden routes, enforceSecurityOnAllRoutes on in ~40%; every 4th project names an undeclared scheme at method, controller or default level. Per route a three-way comparison: effective alternatives from the descriptor (DESIGN A.2) vs paths.*.*.security in the 3.0.0 and 3.1.0 documents vs the SecurityCheckList literal parsed (go/parser) from the generated gin routes file; components.securitySchemes vs the configuration; exit status and written files vs the enforce flag and the undeclared-scheme plants. distinct = distinct (controller-level, method-level, default) security shape triples per route",
 		assume: []string{"the enforced list is read statically from the generated routes file here; its dynamic enforcement is C03's monitor", "an undeclared scheme must yield no spec file; whether the routes file is still written in that case is not judged here"},
 		checkAny: func(res *report.Result, sr *SpecRun, dist *report.Distincter) {
 			p := sr.P
@@ -325,7 +396,7 @@ func c04(c *orch.Ctx) (*report.Result, error) {
 				}
 				// securitySchemes vs configuration is part of C04's statement
 				for _, pb := range configProblems(vr.Doc, p.Config, v) {
-					if pb.Kind == "config-security-schemes" {
+					if pb.Kind == "config-security-schemes" || pb.Kind == "config-security-flows" {
 						res.AddViolation("security-schemes-not-as-configured", map[string]string{"version": v}, fmt.Sprintf("[%s %s] %s", p.Name, v, pb.Detail), caseOf(p, map[string]any{"version": v}))
 					}
 				}
